@@ -84,10 +84,14 @@ def _sb_case(arg):
         if method == "proportional" and any(v != ab.NAN and v < 0 for v in ranks):
             continue
         variants = [("plain", False, False), ("random-floats", False, False), ("near-ties", False, False)]
+        if method == "max":
+            # magnitudes beyond 2^53 (v - 1 == v): fill values "below the minimum" collide with the minimum
+            variants.append(("huge", False, False))
         for vname, lo, hi in variants:
             u = ab.concretise_ranks(ranks, lo_inf=lo, hi_inf=hi,
                                     rng=rng if vname == "random-floats" else None,
-                                    near=(vname == "near-ties")).reshape(shape)
+                                    near=(vname == "near-ties"),
+                                    scale=1e300 if vname == "huge" else None).reshape(shape)
             nonnan = [v for v in ranks if v != ab.NAN]
             n_tied = sum(1 for v in nonnan if v == max(nonnan)) if nonnan else 0
             # enough seeds that a tied optimum is missed with probability < e^-32
@@ -185,11 +189,12 @@ def _ra_case(arg):
     for case in [case]:
         a_r, ndim, axis, is_max = case["a"], case["ndim"], case["axis"], case["isMax"]
         flat = [v for row in a_r for v in row]
-        for vname, lo, hi in [("plain", False, False), ("inf", True, True), ("near-ties", False, False)]:
+        for vname, lo, hi in [("plain", False, False), ("inf", True, True), ("near-ties", False, False),
+                              ("huge", False, False)]:
             if vname != "plain" and not any(v != ab.NAN and v != 0 for v in flat):
                 continue
-            arr = ab.concretise_ranks(flat, lo_inf=lo, hi_inf=hi,
-                                      near=(vname == "near-ties")).reshape(len(a_r), len(a_r[0]))
+            arr = ab.concretise_ranks(flat, lo_inf=lo, hi_inf=hi, near=(vname == "near-ties"),
+                                      scale=1e300 if vname == "huge" else None).reshape(len(a_r), len(a_r[0]))
             if ndim == 1:
                 arr = arr[0]
             fn = rand_argmax if is_max else rand_argmin
